@@ -590,6 +590,48 @@ func main() {
 			sum.Samples = append(sum.Samples, map[string]interface{}{"workflow": src, "matrix_type": dump, "loosenings": nl})
 		}
 	}
+	// other places where a value of known type is replaced by one of unknown type (`@E@`): the
+	// workflow with the precise expression lints without an expression diagnostic, so must the
+	// one with fromJSON(vars.X) / vars / an id computed by an expression
+	{
+		hdr := "on: push\njobs:\n  a:\n    runs-on: ubuntu-latest\n"
+		call := func(ty, dflt string) string {
+			return "on:\n  workflow_call:\n    inputs:\n      x:\n        type: " + ty + "\n        default: " + dflt + "\njobs:\n  a:\n    runs-on: ubuntu-latest\n    steps:\n      - run: echo\n"
+		}
+		anyE := "${{ fromJSON(vars.X) }}"
+		sites := []struct{ name, precise, loose string }{
+			{"call-input-number-default", call("number", "${{ 3 }}"), call("number", anyE)},
+			{"call-input-number-default-event", call("number", "${{ fromJSON('3') }}"), call("number", "${{ github.event.repository.size }}")},
+			{"call-input-boolean-default", call("boolean", "${{ true }}"), call("boolean", anyE)},
+			{"call-input-string-default", call("string", "${{ 'x' }}"), call("string", anyE)},
+			{"timeout-minutes", hdr + "    timeout-minutes: ${{ 10 }}\n    steps:\n      - run: echo\n", hdr + "    timeout-minutes: " + anyE + "\n    steps:\n      - run: echo\n"},
+			{"continue-on-error", hdr + "    continue-on-error: ${{ true }}\n    steps:\n      - run: echo\n", hdr + "    continue-on-error: " + anyE + "\n    steps:\n      - run: echo\n"},
+			{"max-parallel", hdr + "    strategy:\n      max-parallel: ${{ 2 }}\n      fail-fast: ${{ true }}\n      matrix:\n        v: [1]\n    steps:\n      - run: echo\n", hdr + "    strategy:\n      max-parallel: " + anyE + "\n      fail-fast: " + anyE + "\n      matrix:\n        v: [1]\n    steps:\n      - run: echo\n"},
+			{"step-timeout", hdr + "    steps:\n      - run: echo\n        timeout-minutes: ${{ 1 }}\n        continue-on-error: ${{ false }}\n", hdr + "    steps:\n      - run: echo\n        timeout-minutes: " + anyE + "\n        continue-on-error: " + anyE + "\n"},
+			{"step-id-partly-computed", hdr + "    steps:\n      - id: build-linux\n        run: echo\n      - run: echo ${{ steps.build-linux.outputs.x }}\n", hdr + "    steps:\n      - id: build-${{ 'linux' }}\n        run: echo\n      - run: echo ${{ steps.build-linux.outputs.x }} ${{ steps.other.outcome }}\n"},
+			{"step-id-computed", hdr + "    steps:\n      - id: build-linux\n        run: echo\n      - run: echo ${{ steps.build-linux.outputs.x }}\n", hdr + "    steps:\n      - id: ${{ 'build-linux' }}\n        run: echo\n      - run: echo ${{ steps.build-linux.outputs.x }} ${{ steps.other.outcome }}\n"},
+			{"index-by-unknown", hdr + "    strategy:\n      matrix:\n        idx: [0, 1]\n        targets:\n          - [a, b]\n    steps:\n      - run: echo ${{ matrix.targets[matrix.idx] }}\n", hdr + "    strategy:\n      matrix:\n        idx: ['" + anyE + "']\n        targets:\n          - [a, b]\n    steps:\n      - run: echo ${{ matrix.targets[matrix.idx] }}\n"},
+			{"env-object", "on: push\nenv: ${{ fromJSON('{\"A\":\"b\"}') }}\njobs:\n  a:\n    runs-on: ubuntu-latest\n    steps:\n      - run: echo ${{ env.A }}\n", "on: push\nenv: " + anyE + "\njobs:\n  a:\n    runs-on: ubuntu-latest\n    steps:\n      - run: echo ${{ env.A }}\n"},
+		}
+		for _, st := range sites {
+			pre, err1 := lintLines(st.precise)
+			post, err2 := lintLines(st.loose)
+			sum.Evaluations++
+			if err1 != nil || err2 != nil || len(pre) > 0 {
+				sum.Dist["site_loosening_precondition_not_met:"+st.name]++
+				continue
+			}
+			sum.Dist["site_loosenings"]++
+			if len(post) > 0 {
+				var msgs []string
+				for _, m := range post {
+					msgs = append(msgs, m...)
+				}
+				sum.OracleFails = append(sum.OracleFails, failure{What: "replacing a value of known type by one of unknown type introduced a diagnostic (" + st.name + ")",
+					Key: "site-loosening:" + st.name, Workflow: st.precise, Loosened: st.loose, Where: st.name, Messages: msgs})
+			}
+		}
+	}
 	sum.Nontrivial = nontrivial
 	sum.Write(filepath.Join(*out, "summary_matrix.json"))
 }
